@@ -14,9 +14,11 @@ import (
 	"cosmossdk.io/store"
 	"cosmossdk.io/store/metrics"
 	storetypes "cosmossdk.io/store/types"
+	wasmkeeper "github.com/CosmWasm/wasmd/x/wasm/keeper"
 	tmproto "github.com/cometbft/cometbft/proto/tendermint/types"
 	dbm "github.com/cosmos/cosmos-db"
 	"github.com/cosmos/cosmos-sdk/codec"
+	codectypes "github.com/cosmos/cosmos-sdk/codec/types"
 	"github.com/cosmos/cosmos-sdk/runtime"
 	sdk "github.com/cosmos/cosmos-sdk/types"
 	moduletestutil "github.com/cosmos/cosmos-sdk/types/module/testutil"
@@ -24,6 +26,8 @@ import (
 	authcodec "github.com/cosmos/cosmos-sdk/x/auth/codec"
 	authkeeper "github.com/cosmos/cosmos-sdk/x/auth/keeper"
 	authtypes "github.com/cosmos/cosmos-sdk/x/auth/types"
+	authzkeeper "github.com/cosmos/cosmos-sdk/x/authz/keeper"
+	authzmodule "github.com/cosmos/cosmos-sdk/x/authz/module"
 	"github.com/cosmos/cosmos-sdk/x/bank"
 	bankkeeper "github.com/cosmos/cosmos-sdk/x/bank/keeper"
 	banktypes "github.com/cosmos/cosmos-sdk/x/bank/types"
@@ -39,7 +43,9 @@ import (
 	stakingtypes "github.com/cosmos/cosmos-sdk/x/staking/types"
 	chainparams "github.com/palomachain/paloma/v2/app/params"
 	"github.com/palomachain/paloma/v2/testutil/common"
+	"github.com/palomachain/paloma/v2/util/libwasm"
 	"github.com/palomachain/paloma/v2/x/tokenfactory"
+	tfbindings "github.com/palomachain/paloma/v2/x/tokenfactory/bindings"
 	tfkeeper "github.com/palomachain/paloma/v2/x/tokenfactory/keeper"
 	tftypes "github.com/palomachain/paloma/v2/x/tokenfactory/types"
 )
@@ -53,6 +59,13 @@ type env struct {
 	srv   tftypes.MsgServer
 	tfMod sdk.AccAddress
 	dsMod sdk.AccAddress
+	// second round
+	keyTF     *storetypes.KVStoreKey
+	keyAuthz  *storetypes.KVStoreKey
+	cdc       codec.Codec
+	reg       codectypes.InterfaceRegistry
+	authority string
+	wasm      wasmkeeper.Messenger // util/libwasm router in front of the tokenfactory bindings
 }
 
 func newEnv(t testing.TB) *env {
@@ -64,16 +77,17 @@ func newEnv(t testing.TB) *env {
 	keyParams := storetypes.NewKVStoreKey(paramstypes.StoreKey)
 	tkeyParams := storetypes.NewTransientStoreKey(paramstypes.TStoreKey)
 	keyTF := storetypes.NewKVStoreKey(tftypes.StoreKey)
+	keyAuthz := storetypes.NewKVStoreKey(authzkeeper.StoreKey)
 
 	enc := moduletestutil.MakeTestEncodingConfig(
 		auth.AppModuleBasic{}, bank.AppModuleBasic{}, staking.AppModuleBasic{},
-		distribution.AppModuleBasic{}, tokenfactory.AppModuleBasic{},
+		distribution.AppModuleBasic{}, tokenfactory.AppModuleBasic{}, authzmodule.AppModuleBasic{},
 	)
 	cdc := enc.Codec
 
 	db := dbm.NewMemDB()
 	ms := store.NewCommitMultiStore(db, log.NewNopLogger(), metrics.NewNoOpMetrics())
-	for _, k := range []storetypes.StoreKey{keyAcc, keyBank, keyStaking, keyDistro, keyParams, keyTF} {
+	for _, k := range []storetypes.StoreKey{keyAcc, keyBank, keyStaking, keyDistro, keyParams, keyTF, keyAuthz} {
 		ms.MountStoreWithDB(k, storetypes.StoreTypeIAVL, db)
 	}
 	ms.MountStoreWithDB(tkeyParams, storetypes.StoreTypeTransient, db)
@@ -125,6 +139,12 @@ func newEnv(t testing.TB) *env {
 		ak.GetModuleAccount(ctx, name)
 	}
 	tk := tfkeeper.NewKeeper(keyTF, tfSub, ak, bk, dk, authority)
-	return &env{ctx: ctx, ak: ak, bk: bk, dk: dk, tk: tk, srv: tfkeeper.NewMsgServerImpl(tk),
-		tfMod: authtypes.NewModuleAddress(tftypes.ModuleName), dsMod: authtypes.NewModuleAddress(distrtypes.ModuleName)}
+	e := &env{ctx: ctx, ak: ak, bk: bk, dk: dk, tk: tk, srv: tfkeeper.NewMsgServerImpl(tk),
+		tfMod: authtypes.NewModuleAddress(tftypes.ModuleName), dsMod: authtypes.NewModuleAddress(distrtypes.ModuleName),
+		keyTF: keyTF, keyAuthz: keyAuthz, cdc: cdc, reg: enc.InterfaceRegistry, authority: authority}
+	// app.go buildWasmMessageDecorator: the libwasm router; only the tokenfactory messenger is wired
+	// here (a token_factory_msg never reaches the other three)
+	e.wasm = libwasm.NewRouterMessageDecorator(log.NewNopLogger(), nil, nil, nil,
+		tfbindings.NewMessenger(&e.bk, &e.tk))(nil)
+	return e
 }
